@@ -46,6 +46,23 @@ def build_pair(name):
     return src, hdr
 
 
+def build_cfg_pair(define):
+    """the build-option explorer (engine/seqx/c20cfg.cpp) against src/ and against the single header, both with the same option"""
+    tag = "opt-" + (define.lower().replace("qtlogger_", "").replace("_", "") if define else "default")
+    ef = ["-D" + define] if define else []
+    lib = vlib.build_lib("plain", variant=tag, extra_flags=ef)
+    src = vlib.build_exe("c20cfg", [os.path.join(SEQX, "c20cfg.cpp")], "plain", lib, extra_flags=["-I" + SEQX] + ef, variant=tag)
+    hdr_file = os.path.join(vlib.REPO, "qtlogger.h")
+    mocf = os.path.join(vlib.BUILD, "plain-hdr-" + tag, "moc_qtlogger.cpp")
+    os.makedirs(os.path.dirname(mocf), exist_ok=True)
+    r = subprocess.run(["moc"] + [f for f in vlib.BASE_FLAGS if f.startswith(("-I", "-D"))] + ef + [hdr_file, "-o", mocf], capture_output=True, text=True)
+    if r.returncode != 0:
+        raise vlib.EngineError("plain-hdr moc failed: " + r.stderr[-2000:])
+    hdr = vlib.build_exe("c20cfgh", [os.path.join(SEQX, "c20cfg.cpp")], "plain", [],
+                         extra_flags=["-I" + SEQX, '-DVERIF_QTLOGGER_H="%s"' % hdr_file, '-DVERIF_QTLOGGER_MOC="%s"' % mocf] + ef, variant="hdr-" + tag)
+    return src, hdr
+
+
 def regenerate():
     """run the project's generator on a scratch copy (outside /repo and /verif); -> (identical, detail)"""
     d = tempfile.mkdtemp(prefix="verif-c20-", dir="/dev/shm")
@@ -142,6 +159,34 @@ def run(tier):
                     viols.append({"key": "behaviour-differs:" + name, "what": "the library built from src/ and the single header behave differently in the space of explorer %s %s: %s" % (name, " ".join(map(str, args)), msg),
                                   "replay": vlib.write_replay(PROP, "%s-behaviour-%s" % (tier, name), {"explorer": name, "args": [str(z) for z in args], "difference": msg})})
         table.append({"explorer": name, "shards": len(arglists), "cases": sum(x.get("cases", 0) for x in a), "digests_equal": nd == 0})
+    # build options: the same comparison with the library's feature switch QTLOGGER_NO_THREAD off and on (an #include that the
+    # generator inlined inside a conditional block exists in the single header only under that condition)
+    for define in ("", "QTLOGGER_NO_THREAD"):
+        name = "c20cfg" + ("[-D%s]" % define if define else "")
+        try:
+            src, hdr = build_cfg_pair(define)
+        except vlib.EngineError as e:
+            if "hdr" in str(e):
+                viols.append({"key": "header:does-not-build", "what": "the explorer %s does not build against the single header alone: %s" % (name, str(e)[-600:]),
+                              "replay": vlib.write_replay(PROP, "%s-build-%s" % (tier, "cfg" + define), {"error": str(e)[-3000:]})})
+                table.append({"explorer": name, "header_build": "failed"})
+                continue
+            raise
+        args = ["--len", 2 if tier == "quick" else 3]
+        x, y = seqxrun.run_one(src, args, 600), seqxrun.run_one(hdr, args, 600)
+        bad = [p for p in (x, y) if "_crash" in p or "_timeout" in p]
+        if bad:
+            fails += bad
+            continue
+        pairs += 1
+        cases += x.get("cases", 0)
+        distinct += x.get("distinct_outcomes", 0)
+        eq = x.get("digest") == y.get("digest") and x.get("cases") == y.get("cases")
+        if not eq:
+            msg = first_difference("c20cfg", src, hdr, args)
+            viols.append({"key": "behaviour-differs:" + name, "what": "the library built from src/ and the single header, both compiled with %s, behave differently: %s" % ("-D" + define if define else "default options", msg),
+                          "replay": vlib.write_replay(PROP, "%s-behaviour-cfg-%s" % (tier, define or "default"), {"explorer": name, "difference": msg})})
+        table.append({"explorer": name, "shards": 1, "cases": x.get("cases", 0), "digests_equal": eq, "delivered": x.get("counters", {}).get("delivered"), "nothing_delivered": x.get("counters", {}).get("nothing_delivered")})
     tot = seqxrun.merge([])
     tot["cases"] = cases
     tot["states"] = cases
@@ -155,7 +200,8 @@ def run(tier):
         rule="the bounded spaces of the explorers for C01 (pipeline trees, fluent sequences), C12 (patterns x values), C13/C18 (JSON and Sentry events incl. formatter objects constructed with "
              "non-default arguments), C14 (signatures, rule strings), C15 (rule lists), C16 (filter/counter message sequences, regex verdicts) and C17 (sorted-pipeline call sequences) are executed by two builds of each explorer: against the library sources under src/ and against the single "
              "header /repo/qtlogger.h alone (its own moc output, no library objects); every (case => observed output) pair is folded into a per-shard digest and the digests, case counts and "
-             "oracle verdicts must be equal; a mismatch is diffed down to the first differing case. evaluations = cases executed per build. Separately (exact, not model checking): the project's "
+             "oracle verdicts must be equal; a mismatch is diffed down to the first differing case; a further explorer (SignalSink deliveries over direct and queued connections before and after a handler object exists, message copies) is "
+             "compared on both distributions twice: with default options and with -DQTLOGGER_NO_THREAD on both sides. evaluations = cases executed per build. Separately (exact, not model checking): the project's "
              "generator is run on a scratch copy of src/ + tools/ and its output is compared byte for byte with the committed header (coverage.regeneration_identical)",
         assumptions=["behavioural comparison only reaches code the explorer spaces execute; drift in comments or in unreached code is caught only by the byte comparison, which is exact but not model checking",
                      "outputs that depend on the clock or the thread id are excluded from the digests",
